@@ -765,6 +765,54 @@ func (c *Ctx) listerFilters(ownerRule, dedupRule string) {
 					alts = append(alts, gf.FNil(ct), gf.FEq(gf.Field(ct, "UID", nil), uid))
 				}
 				c.Implies(st, gf.Or(alts...), ownerRule+"-owner-filter", name, as.Pos())
+				// and the other way round: a listed revision that nobody controls belongs to the history (it is what a set
+				// deleted with orphaning and created again, or a migrated set, finds); an iteration for such a revision ends
+				// without the append only if its name has been seen before
+				if loop := innermostLoop(fi.Decl.Body, as); loop != nil {
+					var body *ast.BlockStmt
+					switch l := loop.(type) {
+					case *ast.RangeStmt:
+						body = l.Body
+					case *ast.ForStmt:
+						body = l.Body
+					}
+					if head := loopHead(fn, loop); head != nil && body != nil && len(body.List) > 0 {
+						// from behind the last top-level statement that defines the element's variable, for an element not seen before
+						startIdx := 0
+						if root := rootIdent(stripAddr(x)); root != nil {
+							for si, s0 := range body.List {
+								if assignedIn(info, s0, info.ObjectOf(root)) {
+									if _, isAssign := s0.(*ast.AssignStmt); isAssign {
+										startIdx = si + 1
+									}
+								}
+							}
+						}
+						dropped, witness := false, ""
+						if startIdx < len(body.List) && topIndex(body, as) >= startIdx {
+							start := body.List[startIdx]
+							assume := []*gf.Formula{gf.FNil(gf.CallT("k8s.io/apimachinery/pkg/apis/meta/v1.GetControllerOfNoCopy", nil, xt)), gf.FNil(gf.CallT("k8s.io/apimachinery/pkg/apis/meta/v1.GetControllerOf", nil, xt)),
+								gf.Not(gf.FBool(gf.CallT("k8s.io/apimachinery/pkg/apis/meta/v1.IsControlledBy", types.Typ[types.Bool], xt, fn.Term(sets[0]))))}
+							ast.Inspect(body, func(y ast.Node) bool {
+								if st2, ok := y.(*ast.AssignStmt); ok && len(st2.Lhs) == 1 && len(st2.Rhs) == 1 {
+									if ix, ok := st2.Lhs[0].(*ast.IndexExpr); ok && isBoolT(info.TypeOf(ix)) {
+										if tv, ok := info.Types[st2.Rhs[0]]; ok && tv.Value != nil && tv.Value.ExactString() == "true" {
+											assume = append(assume, gf.Not(gf.FBool(fn.Term(ix))))
+										}
+									}
+								}
+								return true
+							})
+							aG := fn.FromUntil(start, an.StateBefore(start).Assume(gf.And(assume...)), as)
+							if in, ok := aG.In[head.Index]; ok && in.Reachable() {
+								dropped = true
+								_, witness = in.Implies(gf.False)
+							}
+						}
+						c.Check(!dropped, ownerRule+"-unowned-revisions-are-kept", name, as.Pos(), "an iteration for a revision without a controller ends without the append only for a name seen before",
+							"a listed revision that has no controller can be left out of the history: it is never adopted, a template it records is not recognised (a new revision is made, or the old one is re-used without being renumbered); facts on one such path: "+clip(witness, 300))
+					}
+				}
 				if total > 1 {
 					c.dedup(fi, fn, an, as, x, dedupRule, name)
 					// the record of what was seen spans both listings: it lives in the lister, or in a function the lister
@@ -1026,4 +1074,12 @@ func isErrorCtor(info *types.Info, e ast.Expr) bool {
 	}
 	f := gf.StaticCallee(info, call)
 	return f != nil && (f.FullName() == "fmt.Errorf" || f.FullName() == "errors.New")
+}
+
+func stripAddr(e ast.Expr) ast.Expr {
+	e = ast.Unparen(e)
+	if u, ok := e.(*ast.UnaryExpr); ok && u.Op == token.AND {
+		return ast.Unparen(u.X)
+	}
+	return e
 }
